@@ -1,6 +1,11 @@
 """C15 - bit-sequence primitives match their definitions for every string and length."""
 
 import collections
+import glob
+import os
+import shutil
+import subprocess
+import tempfile
 
 from hypothesis import strategies as st
 
@@ -308,12 +313,17 @@ def _length_strategy(maxn):
   while 50 * 2**(top_m + 1) + 9 <= maxn:
     top_m += 1
   top_e = maxn.bit_length() - 1
+  around_thr = st.builds(lambda m, d: 50 * 2**m + d, st.integers(0, top_m), st.integers(-9, 9))
   s = st.one_of(
       st.integers(1, 70),
       st.integers(1, 700),
-      st.builds(lambda m, d: 50 * 2**m + d, st.integers(0, top_m), st.integers(-9, 9)),
+      around_thr,
+      around_thr,
+      st.builds(lambda k, d: 8 * k + d, st.integers(1, 1024), st.integers(0, 7)),
       st.builds(lambda k, d: 8 * k + d, st.integers(1, maxn // 8 - 1), st.integers(0, 7)),
       st.builds(lambda e, d: 2**e + d, st.integers(3, top_e), st.integers(-9, 9)),
+      # lengths that are multiples of 9, 7, 3 (and usually not of 8)
+      st.builds(lambda k, q: k * q, st.integers(1, 900), st.sampled_from([3, 7, 9, 27, 63])),
   )
   return s.map(lambda n: max(1, min(maxn, n)))
 
@@ -450,6 +460,21 @@ def strat_split(tier):
       d['sc'] = d['sc'] + [max(1, d['n'] + draw(st.integers(-26, 2)))]
     return d
   return s()
+
+
+def enum_split_grid(tier):
+  """Every block size / interleaving factor 1..70 (thorough: 1..130) on a grid of lengths."""
+  top = 70 if tier == 'quick' else 130
+  i = 0
+  for bs in range(1, top + 1):
+    lengths = [3 * bs, 3 * bs + 1, 8 * bs - 1, 8 * bs, 1000 + bs, 4099]
+    if tier == 'thorough':
+      lengths += [bs, bs + 7, 64 * bs + 5, 65536 + bs]
+    for n in lengths:
+      i += 1
+      yield {'n': n, 'kind': ('random', 'dense', 'sparse', 'runs')[i % 4], 'm': i, 'p': i % 256,
+             'lo': (0x9e3779 * i) & 0xffffff, 'hi': (0x7f4a7c * i) & 0xffffff if i % 3 else 0,
+             'bs': [bs], 'sc': [bs]}
 
 
 # ------------------------------------------------------------------ arm 5: runs
@@ -677,6 +702,121 @@ def enum_rank_shapes(tier):
                'neg': (i * 13) if i % 4 == 0 else None}
 
 
+# ------------------------------------------------------------------ arm 7: coverage-guided (optional, thorough only)
+
+_ATHERIS_PY = '/opt/veriftools/pyvenv/bin/python'
+
+# Runs under the tool venv's interpreter (no gmpy2 there: BitCount gets the definition of
+# popcount as a stand-in, so this engine says nothing about gmpy2.popcount itself).
+_DRIVER = r"""
+import os, sys, types
+g = types.ModuleType('gmpy2'); g.popcount = lambda s: bin(s).count('1'); sys.modules['gmpy2'] = g
+sys.path.insert(0, os.environ.get('VERIF_REPO', '/repo')); sys.path.insert(0, os.environ['C15_VERIF'])
+import atheris
+with atheris.instrument_imports(include=['paranoid_crypto']):
+  from paranoid_crypto.lib.randomness_tests import util
+import props.c15 as P
+atheris.Setup(sys.argv, P.fuzz_one)
+atheris.Fuzz()
+"""
+
+
+def fuzz_one(data):
+  """bytes -> one oracle evaluation (pure function of the bytes; used by atheris and by replay)."""
+  if len(data) < 4:
+    return None
+  op, nraw, par, body = data[0] % 4, data[1] | (data[2] << 8), data[3], bytes(data[4:])
+  if op == 3:
+    c = 1 + par % 40
+    blob = int.from_bytes(body, 'little')
+    rows = [(blob >> (i * c)) & ((1 << c) - 1) for i in range(len(body) * 8 // c)]
+    if nraw & 1:
+      rows = rows + [x ^ y for x, y in zip(rows, rows[1:])]     # dependent rows, more of them
+    check_rank(rows)
+    return 'rank'
+  n = min(nraw % 8209, len(body) * 8 + 8)
+  v = int.from_bytes(body, 'little') & ((1 << n) - 1)
+  if op == 0:
+    m, wrap = 1 + par % 18, bool(par & 0x80)
+    if m <= n:
+      check_freq(v, n, m, wrap)
+    else:
+      _must_raise('frequencycount:no-valueerror:m>length', util.FrequencyCount, v, n, m, wrap)
+      _must_raise('subsequences:no-valueerror:m>length', _subseq, v, n, m, wrap)
+    return 'freq'
+  b = R.bits_of(v, n)
+  if op == 1:
+    check_split(v, n, 1 + par % 70, b)
+    check_scatter(v, 1 + (par * 7 + nraw) % 70, b)
+    return 'split'
+  check_simple(v, n, b)
+  m = 1 + par % 40
+  check_overlapping(v, m, R.overlapping_from_runs(R.run_lengths_of_ones(b), m))
+  return 'simple'
+
+
+def run_atheris(desc):
+  if 'bytes' in desc:                       # replay of a stored fuzz input, in this process
+    kind = fuzz_one(bytes.fromhex(desc['bytes']))
+    return {'nt': False, 'cls': ['atheris:replayed-input:%s' % kind]}
+  tmp = None
+  try:
+    if not os.path.exists(_ATHERIS_PY):
+      return {'nt': False, 'cls': ['atheris:unavailable']}
+    probe = subprocess.run([_ATHERIS_PY, '-c', 'import atheris'], capture_output=True, timeout=120)
+    if probe.returncode != 0:
+      return {'nt': False, 'cls': ['atheris:unavailable']}
+    tmp = tempfile.mkdtemp(prefix='c15-atheris-')
+    env = dict(os.environ, C15_VERIF=os.path.dirname(os.path.dirname(os.path.abspath(__file__))))
+    env.pop('PYTHONPATH', None)
+    r = subprocess.run(
+        [_ATHERIS_PY, '-c', _DRIVER, '-runs=%d' % desc['runs'], '-seed=%d' % desc['seed'],
+         '-max_len=1024', '-max_total_time=%d' % desc['seconds'], '-artifact_prefix=' + tmp + '/',
+         '-print_final_stats=1'],
+        env=env, cwd=tmp, capture_output=True, timeout=desc['seconds'] + 300)
+    err = r.stderr.decode('utf-8', 'replace')
+    crashes = sorted(glob.glob(os.path.join(tmp, 'crash-*')))
+    inputs = [open(c, 'rb').read() for c in crashes]
+  except Exception as e:  # pylint: disable=broad-except
+    return {'nt': False, 'cls': ['atheris:skipped(%s)' % type(e).__name__]}
+  finally:
+    if tmp:
+      shutil.rmtree(tmp, ignore_errors=True)
+  for data in inputs:
+    try:
+      fuzz_one(data)
+    except Violation as v:
+      v.detail['replay_desc'] = {'bytes': data.hex()}
+      raise
+    except Exception:  # pylint: disable=broad-except
+      return {'nt': False, 'cls': ['atheris:driver-problem']}
+  execs = cov = None
+  for line in err.splitlines():
+    if 'stat::number_of_executed_units' in line:
+      execs = int(line.split()[-1])
+    if ' cov: ' in line:
+      try:
+        cov = int(line.split(' cov: ')[1].split()[0])
+      except ValueError:
+        pass
+  if inputs:
+    return {'nt': False, 'cls': ['atheris:crash-not-reproduced-in-process'], 'execs': execs}
+  if r.returncode != 0 or not execs:
+    return {'nt': False, 'cls': ['atheris:skipped(rc=%d)' % r.returncode]}
+  return {'nt': True, 'cls': ['atheris:campaign-completed'], 'execs': execs, 'edges': cov}
+
+
+def enum_atheris(tier):
+  if tier != 'thorough':
+    return
+  try:
+    seed = int(os.environ.get('VERIF_SEED', '1'))
+  except ValueError:
+    seed = 1
+  for k in range(4):
+    yield {'seed': 1000 * seed + k + 1, 'runs': 400000, 'seconds': 240}
+
+
 ARMS = [
     Arm('strings_exhaustive', run_exhaustive, enumerate=enum_exhaustive, exhaustive=True,
         budget=(600, 3000), weight=3.0,
@@ -692,6 +832,8 @@ ARMS = [
         doc='lengths 50*2^m-2 .. 50*2^m+9 for every m: both sides of the fast-path condition'),
     Arm('split_scatter', run_split, strategy=strat_split, quick=4000, thorough=60000,
         budget=(150, 1500), doc='SplitSequence block sizes 1..70, Scatter 1..70'),
+    Arm('split_grid', run_split, enumerate=enum_split_grid, exhaustive=False, budget=(300, 1500),
+        doc='every block size and interleaving factor 1..70/130 on fixed lengths'),
     Arm('runs', run_runs, strategy=strat_runs, quick=4000, thorough=60000, budget=(150, 1500),
         doc='Runs/LongestRunOfOnes/OverlappingRunsOfOnes/ReverseBits/Bits/BitCount on run-structured strings'),
     Arm('runs_enum', run_runs, enumerate=enum_runs, exhaustive=False, budget=(300, 1500),
@@ -700,4 +842,7 @@ ARMS = [
         doc='BinaryMatrixRank vs basis-insertion rank; zero/duplicate/dependent rows'),
     Arm('rank_shapes', run_rank, enumerate=enum_rank_shapes, exhaustive=False, budget=(400, 2400),
         weight=2.8, doc='row counts around 32/50/256/8192 and up to 9000/16385 rows'),
+    Arm('atheris', run_atheris, enumerate=enum_atheris, exhaustive=False, budget=(10, 3000), weight=4.0,
+        shards=4, doc='thorough only, optional: 4 coverage-guided campaigns (atheris from /opt/veriftools/'
+        'pyvenv) over the same oracles; skipped silently when atheris is not importable'),
 ]
